@@ -7,5 +7,5 @@ for d in seeded/*/; do
   [ -f $d/patch.diff ] || continue
   if [ -z "$1" ] && [ -f $d/result.json ]; then continue; fi
   echo "== $id"
-  python3 tools/seeded.py $id "$@"
+  python3 tools/seeded.py $id "$@" || echo "   (skipped: rc=$?)"
 done
